@@ -19,7 +19,7 @@ fn tier_pick<T>(tier: &str, q: T, t: T) -> T {
 
 fn run_c19(tier: &str) -> i32 {
     let mut rep = Report::new("C19", tier);
-    rep.rule = "per runtime (tokio, smol): DFS over message sequences (1..3 messages, each size from the alphabet, some far larger than the 4.6 KB socket buffers) x driver schedules: the first N steps are choice points among {default = alternate sender/receiver, poll the sender, poll the receiver, drop the pending send future and go on} with a deviation budget, then the default schedule runs to completion; one- and two-directional traffic; plus listener cases {bound, inherited descriptor} x 1..8 clients. Every schedule is a real execution over a real socketpair on one thread. Distinct = distinct (received sequence, abandoned sends)".into();
+    rep.rule = "per runtime (tokio, smol): DFS over message sequences (1..3 messages, each size from the alphabet, some far larger than the 4.6 KB socket buffers) x driver schedules: the first N steps are choice points among {default = alternate sender/receiver, poll the sender, poll the receiver, drop the pending send future and go on} with a deviation budget, then the default schedule runs to completion; one- and two-directional traffic; plus listener cases {bound, inherited descriptor} x 1..8 clients; plus, with loom, every interleaving of 3..4 threads that create connections (identifiers pairwise distinct). Every schedule is a real execution over a real socketpair on one thread. Distinct = distinct (received sequence, abandoned sends)".into();
     rep.assumptions = vec![
         "the kernel socket is a FIFO whose answers are a function of the operation sequence; how many bytes each write accepts is observed, not enumerated".into(),
         "connection identifiers are compared for distinctness within one process, sequentially (the counter is a single atomic fetch_add)".into(),
@@ -69,6 +69,34 @@ fn run_c19(tier: &str) -> i32 {
             Err((c, d)) => s.fail(c, d, json!({"listener_case": i})),
         }
     }));
+    // connection identifiers under threads: zlink-core's id counter is a loom atomic in the `loom`
+    // build flavor; the child explores every interleaving of 3..4 threads creating connections
+    {
+        let child = xplore::report::build_dir("loom").join("release/loomids");
+        let out = std::process::Command::new(&child).stderr(std::process::Stdio::null()).output();
+        let v: serde_json::Value = match out {
+            Ok(o) => serde_json::from_slice(o.stdout.split(|b| *b == b'\n').filter(|l| !l.is_empty()).last().unwrap_or(b"null")).unwrap_or(serde_json::Value::Null),
+            Err(e) => {
+                eprintln!("MACHINERY: cannot run {}: {e}", child.display());
+                return 2;
+            }
+        };
+        if v.is_null() {
+            eprintln!("MACHINERY: {} printed no verdict", child.display());
+            return 2;
+        }
+        let phases: Vec<serde_json::Value> = v["phases"].as_array().cloned().unwrap_or_default();
+        let violation = v["violation"].as_str().map(|s| s.to_string());
+        let n = phases.len() as u64 + violation.is_some() as u64;
+        rep.add(sweep("connection-ids-under-threads(loom child)", n.max(1), &Config { threads: 1, ..cfg_base.clone() }, |i, s| match phases.get(i as usize) {
+            Some(p) => {
+                s.steps(p["interleavings"].as_u64().unwrap_or(1));
+                s.sample(|| p.clone());
+                s.pass(i)
+            }
+            None => s.fail("sockets:connection-ids-not-distinct", violation.clone().unwrap_or_else(|| "the loom child reported nothing".into()), json!({"loom": true})),
+        }));
+    }
     rep.finish()
 }
 
@@ -117,6 +145,17 @@ fn replay(path: &str) -> i32 {
     let budget = v["budget"].as_u64().unwrap_or(0) as u32;
     let (trace, verdict) = if v["kind"] == "sweep" {
         match prop.as_str() {
+            "C19" if v["case"]["loom"] == true => {
+                // the loom child explores the interleavings again (vcheck --replay built it)
+                let child = xplore::report::build_dir("loom").join("release/loomids");
+                let out = std::process::Command::new(&child).stderr(std::process::Stdio::inherit()).output();
+                let j: Value = out.ok().and_then(|o| serde_json::from_slice(o.stdout.split(|b| *b == b'\n').filter(|l| !l.is_empty()).last().unwrap_or(b"null")).ok()).unwrap_or(Value::Null);
+                (vec![format!("loom child: {j}")], Ok(match j["violation"].as_str() {
+                    Some(d) => Verdict::fail("sockets:connection-ids-not-distinct", d.to_string()),
+                    None if j.is_null() => Verdict::fail("sockets:loom-child-failed", "no verdict from the loom child".to_string()),
+                    None => Verdict::Pass(0),
+                }))
+            }
             "C19" => {
                 let i = v["case"]["listener_case"].as_u64().unwrap_or(0);
                 let r = c19::listener_case(if i % 2 == 0 { RtKind::Tokio } else { RtKind::Smol }, (i / 2) % 2 == 1, (i / 4) as usize + 1);
